@@ -43,6 +43,14 @@ def events_for(env, rng, thorough):
                                  lambda c1=c1, u1=u1, c2=c2, u2=u2, e1=e1, e2=e2: ObtainQuantity(OrderedDict([(c1, [u1, e1]), (c2, [u2, e2])]), None, "flux")))
                 requests.append(("lists %s%d %s%d [%s,%s]" % (u1, e1, u2, e2, c1, c2),
                                  lambda c1=c1, u1=u1, c2=c2, u2=u2, e1=e1, e2=e2: ObtainQuantity([(u1, e1), (u2, e2)], [c1, c2])))
+    # the same composing content requested as an ordered map and as the two lists (units with exponents, categories)
+    pairs_forms = []
+    for (c1, u1), (c2, u2) in ((("length", "m"), ("time", "s")), (("depth", "km"), ("time", "min")), (("mass", "kg"), ("length", "cm"))):
+        for e1, e2 in ((1, -1), (2, -1), (1, 1), (-1, -2)):
+            pairs_forms.append(("map vs lists %s%d %s%d" % (u1, e1, u2, e2), OrderedDict([(c1, [u1, e1]), (c2, [u2, e2])]), [(u1, e1), (u2, e2)], [c1, c2]))
+    for (c1, u1) in (("length", "m"), ("length", "cm"), ("time", "s")):
+        for e1 in (2, 3, -1):
+            pairs_forms.append(("map vs lists %s%d" % (u1, e1), OrderedDict([(c1, [u1, e1])]), [(u1, e1)], [c1]))
     requests.append(("empty", lambda: ObtainQuantity(OrderedDict())))
     requests.append(("unknown", lambda: ObtainQuantity("<unknown>", "Unknown", "Feet per Furlong")))
     if not thorough:
@@ -108,6 +116,14 @@ def events_for(env, rng, thorough):
                     sb = P.outcome(lambda: (Scalar(b, 2.0) * Scalar(b, 3.0)).GetUnit())
                     ev.append({"op": "SameReq", "call": "%s: square of a value in legacy spelling %s vs %s" % (how, leg, u), "eq": sa == sb and sa[0] == "ok", "ne": sa != sb,
                                "hash1": 0, "hash2": 0, "desc1": "", "desc2": ""})
+    for name, m_, us_, cs_ in pairs_forms:
+        a, b = ObtainQuantity(m_), ObtainQuantity(us_, cs_)
+        ev.append({"op": "SameReq", "call": name, "eq": bool(a == b), "ne": bool(a != b), "hash1": hash(a), "hash2": hash(b), "desc1": desc(a), "desc2": desc(b)})
+        # ... and both are usable alike: a sum with the same quantity written in another unit of the first factor
+        other = OrderedDict((c, [("cm" if u == "m" else "m" if u in ("cm", "km") else u), e]) for c, (u, e) in m_.items())
+        ra = P.outcome(lambda: (Scalar(a, 1.0) + Scalar(ObtainQuantity(other), 2.0)).GetValue())
+        rb = P.outcome(lambda: (Scalar(b, 1.0) + Scalar(ObtainQuantity(other), 2.0)).GetValue())
+        ev.append({"op": "SameReq", "call": name + ": a sum on each", "eq": ra == rb and ra[0] == "ok", "ne": ra != rb, "hash1": 0, "hash2": 0, "desc1": str(ra[1:]), "desc2": str(rb[1:]) if ra == rb else str(ra[1:])})
     # composing maps with the same factors in another order (same rendered strings, different maps): unequal quantities
     for (c1, u1), (c2, u2) in (((("length", "m")), ("time", "s")), (("depth", "km"), ("length", "m")), (("mass", "kg"), ("temperature", "K"))):
         for e1, e2 in ((1, -1), (2, -1), (1, 1)):
